@@ -45,8 +45,13 @@ def variant_env(v):
     env["OMP_WAIT_POLICY"] = "PASSIVE"  # 27+ processes share 16 cores: never spin-wait
     env["PYTHONPATH"] = VERIF + os.pathsep + env.get("PYTHONPATH", "")
     env.pop("MALLOC_PERTURB_", None)
+    env.pop("GLIBC_TUNABLES", None)
     if v != "unset":
         env["MALLOC_PERTURB_"] = str(v)
+        # glibc's thread cache hands small blocks back without going through the perturbing path:
+        # with the tcache on, allocations below ~1 KiB (most scratch arrays of short series) keep
+        # their stale content under every perturb byte.  Measured by the worker's probe.
+        env["GLIBC_TUNABLES"] = "glibc.malloc.tcache_count=0"
     return env
 
 
